@@ -51,6 +51,9 @@ ANCHORS = [
 CONFIGS = [(1, 0), (1, 1), (2, 1), (2, 0), (1, -1), (2, -1)]
 # one live checkout per worker at a time: a worker of the model is one checkout context
 PROGRAMS = ["cx", "cxcx", "cxc", "c", "cxcxc"]
+# c connect, x close, f connect with a failing checkout listener (exception kept), z drop kept exceptions + gc,
+# d drop the reference to the held connection + gc (weakref-triggered check-in)
+GC_OPS = ["c", "c", "x", "x", "f", "z", "d"]
 
 
 def translate(repo, outdir):
@@ -74,6 +77,22 @@ def gen_cases(rng, tier):
                 "sseed": rng.randrange(1 << 30),
                 "failp": rng.choice([0.0, 0.0, 0.15]),
                 "kind": "mo=%d" % mo,
+            }
+        )
+    # oracle-only family (not modelled): failing checkout listeners whose exception keeps the failed fairy alive,
+    # dropped references + gc.collect() (weakref-triggered check-in), racing with ordinary checkouts
+    for k in range(n // 2):
+        ps, mo = rng.choice([(1, 0), (1, 1), (2, 0)])
+        nth = rng.choice([2, 3, 3])
+        progs = ["".join(rng.choice(GC_OPS) for _ in range(rng.randint(2, 5))) for _ in range(nth)]
+        cases.append(
+            {
+                "in": [[ps, mo, rng.randint(0, 1)], nth, []],
+                "progs": progs,
+                "sseed": rng.randrange(1 << 30),
+                "failp": 0.0,
+                "model": False,
+                "kind": "gc-and-failing-checkout",
             }
         )
     return cases
@@ -173,7 +192,7 @@ def _run(c):
         except saq.Empty:
             raw.append(("qempty", w.tid))
             raise
-        raw.append(("qget", w.tid, item.dbapi_connection.cid))
+        raw.append(("qget", w.tid, item.dbapi_connection.cid if item.dbapi_connection is not None else -1))
         return item
 
     def tput(item, block=True, timeout=None):
@@ -207,29 +226,66 @@ def _run(c):
 
     sched.on_step = monitor
 
+    fail_next = [False]
+    if c.get("model", True) is False:
+        from sqlalchemy import event as sa_event
+
+        @sa_event.listens_for(pool, "checkout")
+        def _on_checkout(dbapi_con, con_record, con_proxy):
+            if fail_next[0]:
+                fail_next[0] = False
+                raise RuntimeError("application checkout hook failed")
+
     def worker_fn(prog):
         def fn(w):
+            import gc
+
             mine = []
+            kept = []
             for op in prog:
-                if op == "c":
+                if op in "cf":
                     raw.append(("start", w.tid))
+                    t0 = sched.clock
+                    if op == "f":
+                        fail_next[0] = True
                     try:
                         f = pool.connect()
                     except exc.TimeoutError:
+                        if sched.clock - t0 < 30:
+                            viol.append(
+                                "checkout raised TimeoutError after %.0fs of its 30s timeout (woken with an empty queue)"
+                                % (sched.clock - t0)
+                            )
                         continue
-                    except RuntimeError:
+                    except RuntimeError as e:
+                        if op == "f":
+                            kept.append(e)  # the traceback keeps the failed fairy alive
                         continue
+                    finally:
+                        if op == "f":
+                            fail_next[0] = False
                     cid = f.dbapi_connection.cid
                     holders.setdefault(cid, set()).add(w.tid)
                     mine.append(f)
                     live[(w.tid, id(f))] = f
-                elif mine:
+                    f = None
+                elif op == "z":
+                    del kept[:]
+                    gc.collect()
+                elif op in "xd" and mine:
                     f = mine.pop(0)
                     cid = f.dbapi_connection.cid
                     raw.append(("release", w.tid))
                     holders[cid].discard(w.tid)
                     del live[(w.tid, id(f))]
-                    f.close()
+                    if op == "x":
+                        f.close()
+                        f = None
+                    else:
+                        f = None
+                        gc.collect()
+            del kept[:]
+            gc.collect()
 
         return fn
 
